@@ -79,7 +79,7 @@ ASSUMPTIONS = [
     "last length tojson in *args unpacking 'is iterable' printing string ~)",
     "excluded, counted (known finding F41: async unique / slice list their input when called, the sync ones lazily): pipelines "
     "in which evaluating the input of a unique / slice stage raises (decided by listing that input in the sync environment)",
-    "excluded, counted (finding C09-NATIVE-ORDER: native sync render() converts output values to str while the template is "
+    "excluded, counted (finding F53: native sync render() converts output values to str while the template is "
     "still running, render_async afterwards, so with two failing places a different error wins): native template sets that "
     "print an imported module object (its str() raises TypeError in a native environment)",
     "awaitable attributes / items (wrap=true) are only read by compiled attribute and subscript expressions, coroutine test "
